@@ -195,6 +195,32 @@ Definition strict_verdict (bs : bytes) : N * bool :=
   | None => (0, false)
   end.
 
+(** ** Item count of canonical block arrays
+
+    RFC 9171 4.3.2: a canonical block is an array of 5 items when its CRC type
+    is 0 and of 6 items otherwise.  [block_arity_bad c] says that [c], read as
+    a canonical block whose fourth item is an unsigned integer, has any other
+    number of items (left-over items after the declared fields, or a missing
+    CRC item).  No position when the CRC type item is not an unsigned integer. *)
+Definition block_arity_bad (c : cbor) : bool :=
+  match c with
+  | CArr l =>
+      match nth_error l 3 with
+      | Some (CUint ct) => negb (Nat.eqb (length l) (if ct =? 0 then 5%nat else 6%nat))
+      | _ => false
+      end
+  | _ => true
+  end.
+
+(** 0: the octets are not CBOR / not an array with a first item; 1: some
+    canonical block array has a wrong item count (every model of the decoder
+    rejects, see [BundleCrcProofs.arity_bad_rejected]); 2: all counts right. *)
+Definition arity_verdict (bs : bytes) : N :=
+  match decode bundle_fuel bs with
+  | Some (CArr (_ :: rest), _) => if existsb block_arity_bad rest then 1 else 2
+  | _ => 0
+  end.
+
 (** * 3. Corruptions *)
 
 Fixpoint xor_bytes (xs bs : bytes) : bytes :=
@@ -210,12 +236,13 @@ Definition xor_at (off : nat) (xs bs : bytes) : bytes :=
 (** * 4. Runners for the correspondence harness *)
 
 (** Receive side: one encoded bundle and a list of corruptions (offset, xor
-    octets); per corruption [lax verdict; strict verdict; canonical re-encoding]. *)
+    octets); per corruption [lax verdict; strict verdict; canonical re-encoding;
+    item-count verdict]. *)
 Definition run_rx (c : bytes * list (nat * bytes)) : list (list N) :=
   map (fun f =>
          let bs := xor_at (fst f) (snd f) (fst c) in
          let sv := strict_verdict bs in
-         [lax_verdict bs; fst sv; if snd sv then 1 else 0])
+         [lax_verdict bs; fst sv; if snd sv then 1 else 0; arity_verdict bs])
       (snd c).
 
 (** Transmit side: octets handed to the convergence layer.  Per block (primary
